@@ -186,7 +186,7 @@ pub fn run_one<W: World>(cfg: &W::Cfg, prefix: &[u8], trace: bool) -> Result<Exe
     let prefix_copy = prefix.clone();
     let (tx, rx) = std::sync::mpsc::channel();
     std::thread::Builder::new()
-        .stack_size(8 << 20)
+        .stack_size(stack_bytes())
         .spawn(move || {
             let r = std::panic::catch_unwind(std::panic::AssertUnwindSafe(|| run_in_runtime::<W>(&cfg, &prefix, trace)));
             let r = match r {
@@ -396,4 +396,131 @@ pub fn merge(into: &mut ExploreStats, other: ExploreStats) {
     into.capped |= other.capped;
     into.violations.extend(other.violations);
     into.machinery_errors.extend(other.machinery_errors);
+}
+
+/// Stack size of an execution thread. Small enough that glibc's thread-stack cache (40 MiB by
+/// default) serves every spawn without a fresh mmap/munmap when 16 workers spawn concurrently.
+fn stack_bytes() -> usize {
+    std::env::var("VERIF_EXEC_STACK_KB").ok().and_then(|s| s.parse::<usize>().ok()).unwrap_or(1024) << 10
+}
+
+// ------------------------------------------------------------------------------------------
+// Process-parallel grid exploration.
+//
+// Every execution runs on a fresh OS thread; thread creation and exit serialise on the
+// per-process memory-map lock, so 16 worker *threads* spawning threads reach only ~1.5x the
+// throughput of one. Worker *processes* scale: the parent re-executes its own binary once per
+// worker with VERIF_WORKER="<leg>|<i>|<n>"; the child rebuilds the same (deterministic) list of
+// configurations, explores the slice i mod n sequentially, prints one JSON line per configuration
+// and exits; the parent merges the lines.
+// ------------------------------------------------------------------------------------------
+
+pub fn worker_spec() -> Option<(String, usize, usize)> {
+    let v = std::env::var("VERIF_WORKER").ok()?;
+    let mut it = v.rsplitn(3, '|');
+    let n = it.next()?.parse().ok()?;
+    let i = it.next()?.parse().ok()?;
+    let name = it.next()?.to_string();
+    Some((name, i, n))
+}
+
+pub fn is_worker() -> bool {
+    std::env::var("VERIF_WORKER").is_ok()
+}
+
+pub enum GridOutcome {
+    /// This process is a worker for another leg: skip this leg silently.
+    NotMine,
+    /// Results aligned with the configuration list (None = not started before the wall cap).
+    Done(Vec<Option<ExploreStats>>),
+}
+
+fn stats_to_json(idx: usize, st: &ExploreStats) -> String {
+    serde_json::json!({
+        "idx": idx, "executions": st.executions, "steps": st.steps, "distinct_digests": st.distinct_digests,
+        "nontrivial": st.nontrivial, "max_len": st.max_len, "capped": st.capped,
+        "violations": st.violations.iter().map(|(s, e, c)| serde_json::json!([s, e, c])).collect::<Vec<_>>(),
+        "machinery_errors": st.machinery_errors,
+    })
+    .to_string()
+}
+
+fn stats_from_json(v: &serde_json::Value) -> (usize, ExploreStats) {
+    let mut st = ExploreStats::default();
+    st.executions = v["executions"].as_u64().unwrap_or(0);
+    st.steps = v["steps"].as_u64().unwrap_or(0);
+    st.distinct_digests = v["distinct_digests"].as_u64().unwrap_or(0);
+    st.nontrivial = v["nontrivial"].as_u64().unwrap_or(0);
+    st.max_len = v["max_len"].as_u64().unwrap_or(0) as usize;
+    st.capped = v["capped"].as_bool().unwrap_or(false);
+    if let Some(a) = v["violations"].as_array() {
+        for x in a {
+            let choices: Vec<u8> = x[2].as_array().map(|c| c.iter().map(|y| y.as_u64().unwrap_or(0) as u8).collect()).unwrap_or_default();
+            st.violations.push((x[0].as_str().unwrap_or("").to_string(), x[1].as_str().unwrap_or("").to_string(), choices));
+        }
+    }
+    if let Some(a) = v["machinery_errors"].as_array() {
+        st.machinery_errors = a.iter().map(|x| x.as_str().unwrap_or("").to_string()).collect();
+    }
+    (v["idx"].as_u64().unwrap_or(0) as usize, st)
+}
+
+pub fn grid_explore<W: World>(leg: &str, cfgs: &[W::Cfg], bound: u32, max_exec: u64, wall_cap_s: f64) -> GridOutcome {
+    let t0 = std::time::Instant::now();
+    let deadline = t0 + std::time::Duration::from_secs_f64(wall_cap_s);
+    if let Some((name, i, n)) = worker_spec() {
+        if name != leg {
+            return GridOutcome::NotMine;
+        }
+        use std::io::Write;
+        let out = std::io::stdout();
+        for (j, cfg) in cfgs.iter().enumerate() {
+            if j % n != i {
+                continue;
+            }
+            if std::time::Instant::now() > deadline {
+                break;
+            }
+            let st = explore_until::<W>(cfg, bound, max_exec, 1, Some(deadline));
+            let line = stats_to_json(j, &st);
+            let mut h = out.lock();
+            let _ = writeln!(h, "GRIDRESULT {}", line);
+        }
+        std::process::exit(0);
+    }
+    let n = std::env::var("VERIF_WORKERS").ok().and_then(|s| s.parse::<usize>().ok()).unwrap_or_else(crate::ncpu).max(1).min(cfgs.len().max(1));
+    let exe = std::env::current_exe().expect("current_exe");
+    let args: Vec<String> = std::env::args().skip(1).collect();
+    let mut children = vec![];
+    for i in 0..n {
+        let c = std::process::Command::new(&exe)
+            .args(&args)
+            .env("VERIF_WORKER", format!("{}|{}|{}", leg, i, n))
+            .stdin(std::process::Stdio::null())
+            .stdout(std::process::Stdio::piped())
+            .stderr(std::process::Stdio::null())
+            .spawn();
+        match c {
+            Ok(c) => children.push(c),
+            Err(e) => crate::machinery_failure(&format!("cannot spawn grid worker: {}", e)),
+        }
+    }
+    let mut results: Vec<Option<ExploreStats>> = (0..cfgs.len()).map(|_| None).collect();
+    for c in children {
+        let out = c.wait_with_output().unwrap_or_else(|e| crate::machinery_failure(&format!("grid worker: {}", e)));
+        if !out.status.success() {
+            crate::machinery_failure(&format!("grid worker for leg {} exited with {:?}", leg, out.status.code()));
+        }
+        for line in String::from_utf8_lossy(&out.stdout).lines() {
+            if let Some(j) = line.strip_prefix("GRIDRESULT ") {
+                if let Ok(v) = serde_json::from_str::<serde_json::Value>(j) {
+                    let (idx, st) = stats_from_json(&v);
+                    if idx < results.len() {
+                        results[idx] = Some(st);
+                    }
+                }
+            }
+        }
+    }
+    GridOutcome::Done(results)
 }
